@@ -1662,6 +1662,47 @@ func runCallGraph(w *World) (out string, err error) {
 		}
 		return o
 	}
+	// per bound name: which external objects the Go function behind it can reach (over the
+	// edges kept for the configuration). checks/C08.py turns names that reach something
+	// forbidden into the "suspect names" of the failing-input search.
+	{
+		var extNames []string
+		extIdx := map[int]int{}
+		for _, n := range b.nodes {
+			if n.Kind == "ext" {
+				extIdx[n.ID] = len(extNames)
+				extNames = append(extNames, n.Pkg+"\t"+n.Ext)
+			}
+		}
+		facts["externals"] = extNames
+		nameReach := map[string]map[string][]int{}
+		for _, c := range []string{"bare", "std"} {
+			cc := c
+			bs := append([]cgBinding{}, bare...)
+			if c == "std" {
+				bs = append(bs, std...)
+			}
+			bs = append(bs, special...)
+			m := map[string][]int{}
+			for _, x := range bs {
+				id, ok := b.byName[x.Target]
+				if !ok || x.Target == "" || !cgKeep(cc, x.Lab) {
+					continue
+				}
+				par, _ := b.reach(es, []int{id}, func(lab int) bool { return cgKeep(cc, lab) })
+				var xs []int
+				for nid := range par {
+					if k, ok := extIdx[nid]; ok {
+						xs = append(xs, k)
+					}
+				}
+				sort.Ints(xs)
+				m[x.Name] = xs
+			}
+			nameReach[c] = m
+		}
+		facts["name_reach"] = nameReach
+	}
 	facts["nodes"] = len(b.nodes)
 	facts["edges"] = len(es)
 	facts["problems"] = b.problems
